@@ -1,6 +1,7 @@
 package main
 
 import (
+	"encoding/json"
 	"crypto/sha1"
 	"crypto/sha256"
 	"fmt"
@@ -521,6 +522,16 @@ func (m *Machine) bytesOf(v Value) []byte {
 			b = append(b, m.concStr(x.S, "bytesOf")...)
 		case *JSONBlob:
 			b = append(b, m.concStr(m.jsonText(x), "bytesOf")...)
+		case *JSONLeaf:
+			switch x.Kind {
+			case "string":
+				q, _ := json.Marshal(m.concStr(x.V, "bytesOf"))
+				b = append(b, q[1:len(q)-1]...)
+			case "number":
+				b = append(b, strconv.FormatInt(m.concInt(x.V, "bytesOf"), 10)...)
+			case "bool":
+				b = append(b, strconv.FormatBool(m.truth(x.V))...)
+			}
 		default:
 			m.fail("unsupported", fmt.Sprintf("byte slice element %T", x))
 		}
@@ -620,6 +631,12 @@ func (m *Machine) fmtArg(verb byte, spec string, a Value) Value {
 			if x.Sort == "Int" && (verb == 'd' || verb == 'v') && len(spec) == 2 {
 				return &StrNum{x}
 			}
+			if x.Sort == "Bool" && (verb == 't' || verb == 'v') && len(spec) == 2 {
+				if m.truth(x) {
+					return "true"
+				}
+				return "false"
+			}
 			m.fail("unsupported", "formatting symbolic value with "+spec)
 		case *StrNum, *StrAtom, *StrCat:
 			if (verb == 's' || verb == 'v') && len(spec) == 2 {
@@ -672,7 +689,7 @@ func (m *Machine) toNative(v Value) interface{} {
 			isBytes := true
 			for _, x := range v.A {
 				switch x.(type) {
-				case int64, *StrBlob, *JSONBlob:
+				case int64, *StrBlob, *JSONBlob, *JSONLeaf:
 				default:
 					isBytes = false
 				}
